@@ -182,6 +182,39 @@ func checkLocks(root string) (facts []string, problems []string) {
 				problems = append(problems, fmt.Sprintf("%s (%s): reads %v before taking the lock (line %d)", name, sp.file, bad, fset.Position(lockPos).Line))
 				continue
 			}
+			// nothing that can observe or change the store runs before the lock: no call of another method of the
+			// receiver (it would be a critical section of its own) and no call of a function-typed parameter (a
+			// callback that sees a snapshot the later update does not re-validate)
+			params := map[string]bool{}
+			for _, f := range fd.Type.Params.List {
+				if _, ok := f.Type.(*ast.FuncType); ok {
+					for _, nm := range f.Names {
+						params[nm.Name] = true
+					}
+				}
+			}
+			earlyCall := ""
+			ast.Inspect(fd.Body, func(n ast.Node) bool {
+				c, ok := n.(*ast.CallExpr)
+				if !ok || c.Pos() >= lockPos || earlyCall != "" {
+					return true
+				}
+				switch f := c.Fun.(type) {
+				case *ast.SelectorExpr:
+					if id, ok := f.X.(*ast.Ident); ok && id.Name == rn {
+						earlyCall = rn + "." + f.Sel.Name
+					}
+				case *ast.Ident:
+					if params[f.Name] {
+						earlyCall = "the callback " + f.Name
+					}
+				}
+				return true
+			})
+			if earlyCall != "" {
+				problems = append(problems, fmt.Sprintf("%s (%s): calls %s before taking the lock (line %d): the method is no longer one critical section", name, sp.file, earlyCall, fset.Position(lockPos).Line))
+				continue
+			}
 			facts = append(facts, name+": one critical section")
 		}
 	}
